@@ -3,10 +3,12 @@
 Spec: spec/JsonSession.tla (reader / channel / worker; every request class has
 a non-empty set of admissible answer kinds in every state; invariant
 OneResponsePerRequest, liveness EventuallyAnswered).  TLC enumerates every
-history over the 33-symbol request alphabet up to a bound (and simulates
+history over the 55-symbol request alphabet (every REPL command of src/commands.rs) up to a bound (and simulates
 longer ones) and prints them; each is replayed into a real session, which must
 print exactly one answer per request, of an admissible kind, in order, and
-still answer `1 + 1` afterwards."""
+still answer `1 + 1` afterwards.  `:quit` is the spec's Quit action: the
+process exits with status 0 having answered everything before it and nothing
+after it."""
 import json
 import os
 import re
@@ -49,7 +51,30 @@ REQ = {
     "stoptest": {"method": "run", "input": "test t2 { assert(1 == 2) }"},
     "replaceBad": {"method": "run", "input": ":replace nosuchvar2"},
     "replaceCall": {"method": "run", "input": ":replace f()"},
+    "doc": {"method": "run", "input": ":doc f"},
+    "docnone": {"method": "run", "input": ":doc"},
+    "help": {"method": "run", "input": ":help"},
+    "funs": {"method": "run", "input": ":funs"},
+    "globals": {"method": "run", "input": ":globals"},
+    "methods": {"method": "run", "input": ":methods String"},
+    "methodsnone": {"method": "run", "input": ":methods"},
+    "namespace": {"method": "run", "input": ":namespace"},
+    "nsswitch": {"method": "run", "input": ":namespace __user.gdn"},
+    "namespaces": {"method": "run", "input": ":namespaces"},
+    "parse": {"method": "run", "input": ":parse 1 +"},
+    "parsenone": {"method": "run", "input": ":parse"},
+    "search": {"method": "run", "input": ":search pr"},
+    "source": {"method": "run", "input": ":source f"},
+    "types": {"method": "run", "input": ":types"},
+    "uptime": {"method": "run", "input": ":uptime"},
+    "version": {"method": "run", "input": ":version"},
+    "forgetcalls": {"method": "run", "input": ":forget_calls"},
+    "loadmissing": {"method": "run", "input": ":load /nonexistent.gdn"},
+    "loadfile": {"method": "run", "input": ":load lib.gdn"},
+    "trace": {"method": "run", "input": ":trace"},
+    "quit": {"method": "run", "input": ":quit"},
 }
+LIB = 'fun g() { throw("g") }\nfun f() { 7 }\n'
 # the stopped-state focus: composite stops + every evaluation command + abort
 FOCUS = ["stopthrow", "stopnovar", "stoparg", "stoptest", "badprint", "badif", "badfor", "resume", "skip", "replaceT",
          "replace5", "replaceBad", "replaceCall", "test", "abort"]
@@ -57,20 +82,25 @@ ADMISSIBLE = {"source": {"value", "error"}, "evalcmd": {"value", "error", "comma
               "cmd": {"command", "value", "error"}, "evalupto": {"value", "error"}, "malformed": {"malformed"}}
 CLASS = {}
 for k in REQ:
-    CLASS[k] = ("malformed" if k == "garbage" else "evalupto" if k == "evalupto" else
+    CLASS[k] = ("malformed" if k == "garbage" else "evalupto" if k == "evalupto" else "quit" if k == "quit" else
                 "evalcmd" if k in ("resume", "skip", "replaceT", "replace5", "test", "replaceBad", "replaceCall") else
                 "cmd" if REQ[k]["input"].startswith(":") else "source")
 
 
 ORDER = ["def", "let", "read", "callthrow", "badprint", "badif", "badwhile", "badmatch", "badfor", "deftest", "parseerr", "resume", "skip",
          "replaceT", "replace5", "test", "abort", "forget", "forgetlocal", "type", "locals", "stack", "fstmts", "fvalues", "nosuchcmd",
-         "evalupto", "garbage", "stopthrow", "stopnovar", "stoparg", "stoptest", "replaceBad", "replaceCall"]
+         "evalupto", "garbage", "stopthrow", "stopnovar", "stoparg", "stoptest", "replaceBad", "replaceCall",
+         "doc", "docnone", "help", "funs", "globals", "methods", "methodsnone", "namespace", "nsswitch", "namespaces", "parse", "parsenone",
+         "search", "source", "types", "uptime", "version", "forgetcalls", "loadmissing", "loadfile", "trace", "quit"]
+assert list(REQ) == ORDER, "REQ and ORDER (= Alphabet of spec/JsonSession.tla) must list the same symbols in the same order"
+# the symbols whose effect on later requests is more than an answer: every length-3 history over CORE is played
+CORE = ORDER[:33] + ["nsswitch", "loadfile", "trace", "quit"]
 
 
-def histories(maxlen, simulate=None, seed=0, focus=False):
+def histories(maxlen, simulate=None, seed=0, focus=False, allowed=None):
     cfgtxt = open(os.path.join(os.path.dirname(__file__), "..", "..", "spec", "JsonSession.cfg")).read()
-    if focus:
-        idx = ",".join(str(ORDER.index(s) + 1) for s in FOCUS)
+    if focus or allowed:
+        idx = ",".join(str(ORDER.index(s) + 1) for s in (allowed or FOCUS))
         cfgtxt = re.sub(r"Allowed = \{[^}]*\}", "Allowed = {" + idx + "}", cfgtxt)
     d = os.path.join(os.path.dirname(__file__), "..", "..", "spec")
     name = f"JsonSession_{maxlen}_{os.getpid()}.cfg"
@@ -100,6 +130,8 @@ def play(hist):
     import shutil
     try:
         path = os.path.join(d, "s.json")
+        with open(os.path.join(d, "lib.gdn"), "w") as f:
+            f.write(LIB)
         with open(path, "w") as f:
             for r in reqs:
                 f.write((r if isinstance(r, str) else json.dumps(r)) + "\n")
@@ -135,20 +167,26 @@ def run(tier, seed):
         hf = [h for h in hf if (zlib.crc32(",".join(h).encode()) + seed) % 3 == 0]
         hs = h2 + h5[:150] + hf
     else:
-        r3, h3 = histories(3)
+        r3, h3 = histories(3, allowed=CORE)
         ck.add_tlc(r3)
+        r2, h2 = histories(2)
+        ck.add_tlc(r2)
         r6, h6 = histories(6, simulate=3000, seed=seed + 1)
         ck.add_tlc(r6)
         rf, hf = histories(4, focus=True)
         ck.add_tlc(rf)
-        hs = h3 + h6 + hf
+        hs = h3 + h2 + h6 + hf
     results = pmap(play, hs)
-    stopped_states = 0
+    stopped_states = quits = 0
     for hist, (rc, answers, err) in zip(hs, results):
         ck.evaluated()
         ck.validated()
         key = "C09 history=" + ",".join(hist)
-        n = len(hist) + 1
+        # :quit ends the process (spec action Quit): what was sent before it is answered, nothing after it
+        served = hist[:hist.index("quit")] if "quit" in hist else hist
+        n = len(served) + (0 if "quit" in hist else 1)
+        if "quit" in hist:
+            quits += 1
         if any(CLASS[s] == "evalcmd" for s in hist) and any(s.startswith("bad") or s == "callthrow" for s in hist):
             stopped_states += 1
             ck.nontrivial(key)
@@ -160,21 +198,22 @@ def run(tier, seed):
         elif len(answers) != n:
             problem = f"{len(answers)} answers for {n} requests"
         else:
-            for s, a in zip(hist, answers):
+            for s, a in zip(served, answers):
                 if classify(a) not in ADMISSIBLE[CLASS[s]]:
                     problem = f"request {s} answered with {a[:2]}"
                     break
-            last = answers[-1]
-            if not problem and not (last[0] == "value" and str(last[1]).strip().endswith("2")):
+            last = answers[-1] if answers else None
+            if not problem and "quit" not in hist and not (last[0] == "value" and str(last[1]).strip().endswith("2")):
                 problem = f"final `1 + 1` answered {last[:2]}"
         if problem:
             ck.fail(key, f"history {hist}: {problem}", {"cmd": "garden reftest-json-session s.json",
                                                         "requests": [REQ[s] for s in hist] + [{"method": "run", "input": "1 + 1"}],
                                                         "answers": [list(a[:3]) for a in answers], "stderr": err[-400:]})
     vacuity(stopped_states > 20, "too few histories issue an evaluation command after a failed evaluation")
+    vacuity(quits > 20, "too few histories contain :quit")
     ck.assumptions += ["`interrupt` requests are answered by the reader thread out of band and are not in the alphabet (C08 covers them)",
                        "the admissible answer kinds are deliberately loose: the property is one answer per request, in order, and survival"]
-    return ck.finish(rule="all histories over the 33-symbol alphabet up to the exhaustive bound plus TLC-simulated longer ones; non-trivial = histories that issue :resume/:skip/:replace/:test after a failed evaluation",
+    return ck.finish(rule="all histories over the 55-symbol alphabet up to the exhaustive bound plus TLC-simulated longer ones; non-trivial = histories that issue :resume/:skip/:replace/:test after a failed evaluation",
                      exhaustive=False)
 
 
